@@ -255,11 +255,21 @@ def opAcquire (p : Path) (self : String) : Prog Res :=
     | .data d _ _ => .ret (.bool (d == self))
     | _ => .ret (.bool false)
 
-/-- `ReleaseLock` (the cache entry is dropped before) -/
-def opRelease (p : Path) (self : String) : Prog Res :=
-  .call (.get p) fun r =>
+/-- `ReleaseLock` (the cache entry is dropped before).  Unlike the other operations it does not go
+through the blind retry wrapper call by call: every attempt reads the owner again before it deletes,
+because a delete whose reply was lost may have been applied and the key re-created by another process
+(lock znodes are never `set`: their version is always 0).  `attempts` = 1 + backoff_max_retries. -/
+def opRelease (p : Path) (self : String) : (attempts : Nat) → Prog Res
+  | 0 => .ret .done
+  | n + 1 => .call (.get p) fun r =>
     match r with
-    | .data d ver _ => if d == self then .call (.delete p ver) fun _ => .ret .done else .ret .done
+    | .data d ver _ =>
+      if d == self then .call (.delete p ver) fun r =>
+        match r with
+        | .err .connClosed => opRelease p self n
+        | _ => .ret .done
+      else .ret .done
+    | .err .connClosed => opRelease p self n
     | _ => .ret .done
 
 /-- the lock cache: `AcquireLock` answers `true` without asking while the entry is younger than the TTL -/
